@@ -500,7 +500,7 @@ func buildPathFromExpr(s *V2, root *expr.RootExpr, h *expr.HostExpr, route *expr
 		// By default tag with service name
 		tagNames = []string{route.Endpoint.Service.Name()}
 	}
-	for _, key := range route.FullPaths() {
+	for ki, key := range route.FullPaths() {
 		// Remove any wildcards that is defined in path as a workaround to
 		// https://github.com/OAI/OpenAPI-Specification/issues/291
 		key = expr.HTTPWildcardRegex.ReplaceAllString(key, "/{$1}")
@@ -560,12 +560,14 @@ func buildPathFromExpr(s *V2, root *expr.RootExpr, h *expr.HostExpr, route *expr
 		}
 
 		operationID := fmt.Sprintf("%s#%s", endpoint.Service.Name(), endpoint.Name())
-		index := 0
-		for i, rt := range endpoint.Routes {
+		// A route has one full path per base path of the service: the index is
+		// the position of the path among all the paths of the endpoint.
+		index := ki
+		for _, rt := range endpoint.Routes {
 			if rt == route {
-				index = i
 				break
 			}
+			index += len(rt.FullPaths())
 		}
 		if index > 0 {
 			operationID = fmt.Sprintf("%s#%d", operationID, index)
